@@ -510,4 +510,51 @@ def stepFlight (sh : Sharing) (e : Env) (reqs : List Req) (s : Flight) : Ev → 
 def runFlight (sh : Sharing) (e : Env) (reqs : List Req) (evs : List Ev) : Flight :=
   evs.foldl (stepFlight sh e reqs) Flight.init
 
+/-! ### fault paths: what the transport and the backend do with a forwarded request
+
+`httputil.ReverseProxy` hands the outgoing request to `http.Transport.RoundTrip`.  The stated contract
+of the transport (observed by the fault campaign of the harness, not proved): an attempt either finds
+no connection (nothing is written), or writes the request and the connection breaks before a complete
+answer, or gets a complete answer; after a broken attempt the *same* request is written again only
+when it is replayable (no body, idempotent method or an idempotency key) and the connection was a
+reused one; redirects are not followed; an answer `101` to a request that does not ask for a protocol
+switch is an error.  On any error the error handler of `linkedIPHandler` runs, which writes nothing. -/
+
+inductive Attempt
+  /-- no connection to the target (nobody listens, the dial times out) -/
+  | noConn
+  /-- the request was written; the connection broke before a complete answer -/
+  | broke
+  /-- a complete answer with this status -/
+  | answered (status : Nat)
+  deriving DecidableEq
+
+/-- what the client gets -/
+inductive ClientAnswer
+  | notFound
+  | robots
+  | err500
+  /-- the error handler of `linkedIPHandler` wrote nothing: `200` without a body -/
+  | empty
+  /-- the backend's own answer (a redirect is handed on, not followed) -/
+  | backend (status : Nat)
+  deriving DecidableEq
+
+/-- `Transport.RoundTrip` over a list of attempt outcomes: the answer and what the backend received. -/
+def roundTrip (retryable : Bool) (o : Out) : List Attempt → ClientAnswer × List Out
+  | [] => (.empty, [])
+  | .noConn :: _ => (.empty, [])
+  | .broke :: rest =>
+    if retryable then ((roundTrip retryable o rest).1, o :: (roundTrip retryable o rest).2) else (.empty, [o])
+  | .answered s :: _ => (if s = 101 then .empty else .backend s, [o])
+
+/-- `linkedIPProxy.ServeHTTP` in front of a transport and a backend that behave as `atts` says. -/
+def serveFaulty (e : Env) (r : Req) (retryable : Bool) (atts : List Attempt) : ClientAnswer × List Out :=
+  match serve e r with
+  | .notFound => (.notFound, [])
+  | .robots => (.robots, [])
+  | .err500 => (.err500, [])
+  | .proxyErr => (.empty, [])
+  | .proxied p h => roundTrip retryable { method := r.method, path := p, hdrs := h } atts
+
 end Agd.LinkIP
